@@ -184,17 +184,22 @@ def run(call: GeneratorCall) -> Module:
         msg = f"Generator {call.gen} returned {m}, must return `Module`."
         raise RuntimeError(msg)
 
+    # A Module handed on from another generator call (as `MosStack` does with `Series`) keeps the name it was
+    # given there. Re-naming it in place again would make its name depend on the call history.
+    handed_on = m._generated_by is not None
+
     # Give the result a reference back to the generating `Call`
     m._generated_by = call
 
     # Module naming
-    # If the Module that comes back is anonymous, start by giving it a name equal to the Generator's
-    if m.name is None:
-        m.name = call.gen.name
+    if not handed_on:
+        # If the Module that comes back is anonymous, start by giving it a name equal to the Generator's
+        if m.name is None:
+            m.name = call.gen.name
 
-    # If it has a nonzero number of parameters, add a unique suffix per its parameter-values
-    if hasparams(call.gen.Params):
-        m.name += "(" + _unique_name(call.params) + ")"
+        # If it has a nonzero number of parameters, add a unique suffix per its parameter-values
+        if hasparams(call.gen.Params):
+            m.name += "(" + _unique_name(call.params) + ")"
 
     # Store the result in our cache, and on the Call.
     the_cache.stack.pop()
